@@ -111,7 +111,8 @@ def decide(prop, tier='quick', seed=0, units=None, jobs=8, quiet=False):
         if r.status == 'undecided':
             undecided.append('%s: %s' % (r.unit, r.reason))
         for f in r.fns:
-            if f.get('excluded') and not f['known'] and (prop in f['props'] or prop in f['safety'] or any(prop in c['tags'] for c in f['clauses'])):
+            has_known_twin_here = bool(set(getattr(f.get('fnspec'), 'known', {}) or {}) & set(known_ids))   # a known finding of THIS property lives in a twin of f
+            if f.get('excluded') and not f['known'] and (prop in f['props'] or prop in f['safety'] or any(prop in c['tags'] for c in f['clauses']) or has_known_twin_here):
                 why = '; '.join([m for (m, q) in getattr(r, 'hard_first', []) if q == f['qual']] + [l for l in getattr(r, 'lost', []) if l.startswith(f['qual'] + ':')])
                 undecided.append('%s: %s is outside the verifier\'s reach in its current shape (%s)' % (r.unit, f['qual'], why[:300]))
         for a in r.assumptions:
